@@ -134,6 +134,8 @@ def run(r):
         "no fill frame is visible at the call (hd 0 fbs = length fills); where one may be visible the call is kept by the inliner - the documented exception, proved as C14_call_hides_fill",
         "error traces are not part of the model state: results are compared up to the trace (the second documented exception)",
         "results Unk (construct outside the interpreter model) and OOF (fuel) are excluded by the statements",
+        "NOT carried by the theorems: the un-fill stack (°⬚ / undo half of ⍜⬚; Uiua::unfill_frame and the second component of the fill boundary pair) is not part of Exec.v's state - a call's effect on it is checked only by the search family `unfill`; "
+        "the strip/flatten pass `flat` of the validator and the `agree` check on calls kept under a fill have no soundness theorem; name resolution, privacy, macro hygiene, import caching have no Coq model",
     ]
     if not r.harness(["c14", "c02"]):
         return
@@ -187,7 +189,8 @@ def run(r):
                           "(inline one call by the parenthesised body; abstract a random sub-sequence of main under a fresh name; index macro call vs "
                           "hand expansion; definitions moved into a module and referred to by path, unused ones private; index macros nested 2-3 deep whose "
                           "bodies mention definition-site names (public/private) vs the by-hand expansion placed in the defining scope, used in the defining "
-                          "module / through a module path with same-named outer bindings / after the names were rebound) plus the fill-crossing family "
+                          "module / through a module path with same-named outer bindings / after the names were rebound) ; search only: a named function whose body sets its OWN un-fill (°⬚v F, ⍜⬚v F G over take/keep/select/join) "
+                          "called directly or through a second function inside 0-2 enclosing ⬚ contexts vs its body in place - must agree) plus the fill-crossing family "
                           "(expected NOT equivalent); distinct = distinct (P, P') source pairs outside the fill family; "
                           "search: the same families run on the interpreter, values and error messages (no trace, no location) compared; corpus: call "
                           "sites of single-line top-level bindings of tests/*.ua and examples/*.ua replaced by the parenthesised body text")
